@@ -100,6 +100,8 @@ def run(ctx, spec):
             exp.append(('fq2.imaginary', 'ok ' + h32(x[1]), ('imag', x), nt(x)))
             lines.append('_ fq2.to_slice $a')
             exp.append(('fq2.to_slice', 'bytes ' + f2hex(x), ('to_slice', x), nt(x)))
+            lines.append('_ fq2.into_bytes.v $a')
+            exp.append(('fq2.to_slice', 'bytes ' + f2hex(x), ('into', x), nt(x)))
             lines.append('_ fq2.from_slice %s' % f2hex(x))
             exp.append(('fq2.from_slice', 'ok ' + f2hex(x), ('from_slice', x), nt(x)))
         elif kind == 'pred':
